@@ -45,20 +45,24 @@ namespace {
 const int MAXN = 6;
 const double EPS = 2.220446049250313e-16;
 const double INF = std::numeric_limits<double>::infinity();
-const long EVAL_CAP = 1000000;        // hard cap on objective evaluations of one optimisation: hang detector
+const long EVAL_CAP_VERBOSE = 300000;
+const long EVAL_CAP = 700000;         // hard cap on objective evaluations of one optimisation: hang detector (7e5, not 1e6: about 5 s
+                                      // under ASan, the driver kills a run after 10 CPU-seconds)
 
 // ---- rarity of the triggers of findings that fire on the unchanged tree (by construction of the generator: one run in N
-// may produce the trigger, all other runs avoid it).  Set to 1-3 once a finding is fixed.
-const long META_NAN_ONE_IN = 400;       // meta-optimiser with n >= 2 precision steps and a non-positive starting value (each such run costs 1e6 evaluations)
-const long META_BFGS_ONE_IN = 400;      // meta-optimiser re-initialising BFGS (backtracking line search) close to the optimum (idem)
-const long META_DSM_STEP_ONE_IN = 50;   // meta-optimiser driving the downhill simplex one step at a time
-const long FAR_BRACKET_ONE_IN = 50;     // direct bracketMinimum call whose minimiser lies beyond the first golden-section extension
-const long META_POWELL_STEP_ONE_IN = 50; // meta-optimiser driving Powell one step at a time
-const long DSM_DEGENERATE_ONE_IN = 50;  // downhill simplex under the automatic policy started exactly on an upper bound (two identical vertices)
+// may produce the trigger, all other runs avoid it).  Set to 1-3 once a finding is fixed: every constant below that is 1 or 2
+// belongs to a defect repaired in /repo (fixes 01-09), its trigger is generated at full rate again.
+const long META_NAN_ONE_IN = 1;       // meta-optimiser with n >= 2 precision steps and a non-positive starting value (each such run costs 1e6 evaluations)
+const long META_BFGS_ONE_IN = 1;      // meta-optimiser re-initialising BFGS (backtracking line search) close to the optimum (idem)
+const long META_DSM_STEP_ONE_IN = 1;   // meta-optimiser driving the downhill simplex one step at a time
+const long FAR_BRACKET_ONE_IN = 2;     // direct bracketMinimum call whose minimiser lies beyond the first golden-section extension
+const long META_POWELL_STEP_ONE_IN = 1; // meta-optimiser driving Powell one step at a time
+const long DSM_DEGENERATE_ONE_IN = 1;  // downhill simplex under the automatic policy started exactly on an upper bound (two identical vertices)
+const long META_DSM_STEP_CONV_ONE_IN = 50; // KEEP-KNOWN: meta-optimiser driving the downhill simplex one step at a time, eligible for the convergence clause
 const long POWELL_ZERO_MIN_ONE_IN = 20; // (on top of the 2% of runs with c == 0) Powell on an objective whose minimum value is exactly 0: relative stop test is 0/0
-const long NBT_BUDGET_ONE_IN = 50;      // Newton backtracking cut by the evaluation budget
-const long BRENTIN_CONV_ONE_IN = 50;    // Brent with inward bracketing eligible for the convergence clause
-const long GOLDEN_PLAIN_ONE_IN = 50;    // golden section search with its start inside the initial interval / eligible for the convergence clause
+const long NBT_BUDGET_ONE_IN = 1;      // Newton backtracking cut by the evaluation budget
+const long BRENTIN_CONV_ONE_IN = 1;    // Brent with inward bracketing eligible for the convergence clause
+const long GOLDEN_PLAIN_ONE_IN = 1;    // golden section search with its start inside the initial interval / eligible for the convergence clause
 
 enum { O_BFGS = 0, O_CG, O_POWELL, O_DSM, O_SIMPLE, O_SNEWTON, O_BRENT, O_BRENTIN, O_GOLDEN, O_NEWTON1, O_NBT, O_META, NOPT };
 const char* ONAME[NOPT] = {"Bfgs", "ConjugateGradient", "Powell", "DownhillSimplex", "SimpleMulti", "SimpleNewtonMulti", "Brent", "BrentInward",
@@ -138,6 +142,18 @@ double hessObj(const ObjCfg& o, const double* x, int v, int u) {
   return h + (v == u ? o.lq : 0);
 }
 
+// minimiser of the objective along coordinate j, the other coordinates at the start (bisection on the analytic derivative)
+double condMinOf(const ObjCfg& oc, int j) {
+  double x[MAXN]; for (int i = 0; i < oc.n; ++i) x[i] = oc.x0[i];
+  if (oc.type == 0) { double g = 0; for (int k = 0; k < oc.n; ++k) if (k != j) g += oc.A[j][k] * (oc.x0[k] - oc.m[k]); return oc.m[j] - g / oc.A[j][j]; }
+  double lo = oc.m[j] - 1, hi = oc.m[j] + 1;
+  for (int it = 0; it < 60; ++it) { x[j] = lo; if (gradObj(oc, x, j) < 0) break; lo = oc.m[j] - (oc.m[j] - lo) * 4; }
+  for (int it = 0; it < 60; ++it) { x[j] = hi; if (gradObj(oc, x, j) > 0) break; hi = oc.m[j] + (hi - oc.m[j]) * 4; }
+  for (int it = 0; it < 200 && lo < hi; ++it) { double mid = 0.5 * (lo + hi); if (!(lo < mid && mid < hi)) break; x[j] = mid; if (gradObj(oc, x, j) < 0) lo = mid; else hi = mid; }
+  return 0.5 * (lo + hi);
+}
+
+
 // ---------------------------------------------------------------- stub peers
 struct EvalCap {};      // raised by the objective when the hard evaluation cap is exceeded (deliberately not a std::exception)
 
@@ -149,6 +165,8 @@ public:
   ObjCfg cfg;
   double fval = 0;
   bool d1On = true, d2On = true, inSet = false;
+  double bestF = INF; long lastImprove = 0;   // best value seen and the evaluation at which it was last improved
+  long cap = EVAL_CAP;          // verbose runs format text at every step and cost 3-4 times more per evaluation: they get a lower cap
   long onBound = 0;             // evaluations with a boxed coordinate exactly on one of its bounds (a constraint was active there)
   long iterStart = 0;           // nEval at the last init/step event of the outer optimiser (set by the listener)
   long nEval = 0, outside = 0, rejected = 0, firstOutsideSeq = -1; int firstOutsideCoord = -1; double firstOutsideVal = 0;
@@ -167,7 +185,8 @@ public:
   void point(double* x) const { const bpp::ParameterList& pl = getParameters(); for (int i = 0; i < cfg.n; ++i) x[i] = pl[static_cast<size_t>(i)].getValue(); }
   void refresh() { double x[MAXN]; point(x); fval = evalObj(cfg, x); }
   void recordEval() {
-    if (++nEval > EVAL_CAP || nEval - iterStart > EVAL_CAP / 2) throw EvalCap();
+    if (fval < bestF) { bestF = fval; lastImprove = nEval + 1; }
+    if (++nEval > cap || nEval - iterStart > cap / 2) throw EvalCap();
     double x[MAXN]; point(x);
     for (int i = 0; i < cfg.n; ++i) {
       if (cfg.has[i] && (x[i] == cfg.lo[i] || x[i] == cfg.hi[i])) ++onBound;
@@ -201,6 +220,13 @@ public:
 };
 
 struct StepEv { unsigned int nb; double f; };
+class IterMarker : public bpp::OptimizationListener {     // attached to the inner optimisers of a meta-optimiser: their steps are iterations too
+public:
+  SimObjective* obj = nullptr;
+  void optimizationInitializationPerformed(const bpp::OptimizationEvent&) override { if (obj) obj->iterStart = obj->nEval; }
+  void optimizationStepPerformed(const bpp::OptimizationEvent&) override { if (obj) obj->iterStart = obj->nEval; }
+  bool listenerModifiesParameters() const override { return false; }
+};
 class SimListener : public bpp::OptimizationListener {
 public:
   std::vector<StepEv> ev; long inits = 0;
@@ -260,6 +286,7 @@ struct Result {
   long clockReads = 0, refused = 0, written = 0;
   double slopeUsed = 0;
   long onBound = 0;
+  long evalsSinceImprovement = 0;  // objective evaluations since the best value seen was last improved
   long evalsInLastIteration = 0;   // objective evaluations since the last init/step event (the iteration in progress)
 };
 
@@ -315,6 +342,7 @@ Result runOpt(const ObjCfg& oc, const OptCfg& c, const Env& e) {
   auto f = std::make_shared<SimObjective>(oc);
   auto listener = std::make_shared<SimListener>();
   listener->obj = f.get();
+  if (c.verbose > 0) f->cap = EVAL_CAP_VERBOSE;
   std::shared_ptr<bpp::AbstractOptimizer> opt;
   if (is1D(c.kind)) R.coords.push_back(c.coord); else for (int i = 0; i < oc.n; ++i) R.coords.push_back(i);
   for (int i = 0; i < MAXN; ++i) R.own[i] = 0;
@@ -344,6 +372,8 @@ Result runOpt(const ObjCfg& oc, const OptCfg& c, const Env& e) {
         for (int i = 0; i < oc.n; ++i) { if ((c.metaMask >> i) & 1) nb.push_back(vname(i)); else na.push_back(vname(i)); }
         unsigned short da = 0, db = 0;
         auto oa = makeInner(c.metaA, f, da); auto ob = makeInner(c.metaB == 3 ? 0 : 3 + c.metaB, f, db);
+        auto marker = std::make_shared<IterMarker>(); marker->obj = f.get();
+        oa->addOptimizationListener(marker); ob->addOptimizationListener(marker);
         infos->addOptimizer("first", oa, na, da, c.metaTypeA ? bpp::MetaOptimizerInfos::IT_TYPE_FULL : bpp::MetaOptimizerInfos::IT_TYPE_STEP);
         infos->addOptimizer("second", ob, nb, db, c.metaTypeB ? bpp::MetaOptimizerInfos::IT_TYPE_FULL : bpp::MetaOptimizerInfos::IT_TYPE_STEP);
         opt = std::make_shared<bpp::MetaOptimizer>(f, std::move(infos), static_cast<unsigned int>(c.metaN));
@@ -375,7 +405,7 @@ Result runOpt(const ObjCfg& oc, const OptCfg& c, const Env& e) {
     }
   }
   f->point(R.own);
-  R.steps.swap(listener->ev); R.inits = listener->inits; R.evalsInLastIteration = f->nEval - f->iterStart;
+  R.steps.swap(listener->ev); R.inits = listener->inits; R.evalsInLastIteration = f->nEval - f->iterStart; R.evalsSinceImprovement = f->nEval - f->lastImprove;
   R.nEval = f->nEval; R.outside = f->outside; R.firstOutsideSeq = f->firstOutsideSeq; R.firstOutsideCoord = f->firstOutsideCoord; R.firstOutsideVal = f->firstOutsideVal;
   R.evalHash = f->evalHash; R.onBound = f->onBound;
   R.clockReads = g_clock.calls;
@@ -383,6 +413,10 @@ Result runOpt(const ObjCfg& oc, const OptCfg& c, const Env& e) {
   R.written = static_cast<long>(msg.buf.data.size() + prof.buf.data.size() + app.buf.data.size());
   return R;
 }
+
+// calibration aid: DSIM_C10_ONLY=<optimiser index> makes the generator draw only that optimiser (read once at start-up; never set
+// in registered checks; replay files are self-contained plans either way)
+const int g_onlyKind = getenv("DSIM_C10_ONLY") ? atoi(getenv("DSIM_C10_ONLY")) : -1;
 
 // ---------------------------------------------------------------- calibration aid
 // DSIM_C10_CAL=1: every worker writes the worst observed convergence ratios per optimiser to $DSIM_TMP/c10cal.<pid> at exit
@@ -405,24 +439,27 @@ struct Calib {
 const char* const g_debugFile = getenv("DSIM_C10_DEBUG");
 
 // convergence constants: bound = K * (D + floor), see info().tolerances; calibrated per optimiser
-// worst ratios seen on 130 000 runs of the unchanged tree (seed 1): Bfgs 673, ConjugateGradient 3.5, Powell 14.7, DownhillSimplex 3119,
-// SimpleMulti 8.4, SimpleNewtonMulti 7.7, Brent 0.35, Newton1D 3.3e-10, Meta 8.3 (307 when it drives the downhill simplex)
-double convK(int kind, bool metaSimplex) {
+// worst ratios seen (130 000 runs before the fixes 01-09, 80 000 after them, seed 1): Bfgs 673 (137 after), ConjugateGradient 3.5, Powell 24,
+// DownhillSimplex 3119, SimpleMulti 8.4, SimpleNewtonMulti 7.7, Brent / BrentInward / GoldenSection 0.40, Newton1D 3.3e-10,
+// Meta 321 (665 when it drives the downhill simplex in full mode)
+double convK(int kind, int n) {
   switch (kind) {
     case O_BFGS: return 1e5;
     case O_CG: return 500;
-    case O_POWELL: return 2000;
-    case O_DSM: return 5e5;
+    case O_POWELL: return 3000;
+    case O_DSM: return n <= 1 ? 5000 : (n <= 4 ? 1e5 : (n == 5 ? 3e5 : 3e6));     // worst per dimension (40 000 simplex-only runs, fixed tree): 14, 845, 75, 518, 2551, 23451
     case O_SIMPLE: case O_SNEWTON: return 1000;
     case O_BRENT: case O_BRENTIN: case O_GOLDEN: return 50;
     case O_NEWTON1: return 1e-6;
-    default: return metaSimplex ? 5e4 : 1000;
+    default: return 1e5;
   }
 }
 
 // ---------------------------------------------------------------- executor
 class Exec {
   const Plan& p; Ctx& ctx; ObjCfg oc; OptCfg c;
+  bool haveA = false; Result resA;       // the optimisation under environment A is deterministic: computed once per run, shared by the opt and env ops
+  const Result& runA() { if (!haveA) { resA = runOpt(oc, c, envOf(p, "A")); haveA = true; } return resA; }
 public:
   Exec(const Plan& pl, Ctx& cx) : p(pl), ctx(cx), oc(buildCfg(pl)), c(optCfgOf(pl, oc)) {}
 
@@ -470,13 +507,14 @@ public:
     for (int i = 0; i < oc.n; ++i) if (!(oc.s[i] > 0)) return false;
     if (c.kind == O_NBT && !(oc.n == 1 && oc.x0[0] == 0 && oc.m[0] > 0)) return false;     // backtracking searches lambda in (0,1] from 0 along a descent direction
     if ((c.kind == O_BRENT || c.kind == O_BRENTIN || c.kind == O_GOLDEN) && !(c.iv0 < c.iv1)) return false;
+    if (c.kind == O_BRENTIN) { double xm = condMinOf(oc, c.coord); if (!(c.iv0 < xm && xm < c.iv1)) return false; }   // inward scanning needs the minimiser inside
     return true;
   }
 
   void opOpt() {
     if (!inDomain()) { ctx.outcome("skip"); return; }
     Env e = envOf(p, "A");
-    Result R = runOpt(oc, c, e);
+    const Result& R = runA();
     logResult(R);
     const std::string O = on();
     // reach
@@ -490,6 +528,13 @@ public:
     if (oc.type == 1) ctx.probe("non-quadratic-objective");
     if (R.written > 0) ctx.probe("stream-recorded-output");
     ctx.custom = R.nEval;
+    {
+      static const char* OC[4] = {"returned", "constraint-exception", "exception", "eval-cap"};
+      std::string cfgs = std::string("cfg:") + O + ":" + PNAME[c.policy] + (oc.type ? ":logcosh" : ":quadratic") + ":n" + std::to_string(oc.n) + (oc.anyBox() ? (oc.ownBox ? ":box-own" : ":box-list") : ":nobox")
+                         + (c.budget > 0 ? (cut ? ":budget-cut" : ":budget-not-reached") : ":nobudget") + ":stop" + std::to_string(c.stopType) + ":v" + std::to_string(c.verbose) + (R.tol ? ":tol" : ":notol") + ":" + OC[R.outcome];
+      if (c.kind == O_META) cfgs += ":inner" + std::to_string(c.metaA) + (c.metaTypeA ? "f" : "s") + std::to_string(c.metaB) + (c.metaTypeB ? "f" : "s") + ":steps" + std::to_string(c.metaN);
+      ctx.outcome(cfgs.c_str());
+    }
     if (g_cal.on) g_cal.see(std::string("evals:") + O + (c.budget > 0 ? ":cut" : ""), static_cast<double>(R.nEval), "plan=" + std::to_string(p.index) + " outcome=" + std::to_string(R.outcome) + " steps=" + std::to_string(R.steps.size()));
 
     // (3) termination: the hard cap on objective evaluations doubles as hang detector
@@ -497,8 +542,11 @@ public:
     // of the cap: the statement allows "the budget plus the iteration in progress", and an optimiser whose own counter is
     // still below its budget after 1e6 objective evaluations has not overrun anything yet (inconclusive, not reported).
     if (R.outcome == 3) {
-      if (R.evalsInLastIteration > EVAL_CAP / 2)
-        vfail("hang:eval-cap", "hang:eval-cap:" + O + capTrigger(), O + ": one iteration used more than " + std::to_string(EVAL_CAP / 2) + " objective evaluations (" + std::to_string(R.steps.size()) + " steps completed before)");
+      long capUsed = c.verbose > 0 ? EVAL_CAP_VERBOSE : EVAL_CAP;
+      if (R.evalsInLastIteration > capUsed / 2)
+        vfail("hang:eval-cap", "hang:eval-cap:" + O + capTrigger(), O + ": one iteration used more than " + std::to_string(capUsed / 2) + " objective evaluations (" + std::to_string(R.steps.size()) + " steps completed before)");
+      if (R.evalsSinceImprovement > capUsed / 2)
+        vfail("hang:eval-cap", "hang:eval-cap:" + O + ":stagnant" + capTrigger(), O + ": still running after " + std::to_string(R.nEval) + " objective evaluations, the last " + std::to_string(R.evalsSinceImprovement) + " of them without any improvement of the best value seen (" + std::to_string(R.steps.size()) + " steps completed)");
       ctx.probe("eval-cap-inconclusive"); ctx.outcome("inconclusive"); return;
     }
 
@@ -535,6 +583,14 @@ public:
     double x[MAXN]; fullPoint(R, x);
     for (size_t k = 0; k < R.pt.size(); ++k) if (!std::isfinite(R.pt[k])) vfail("invariant:reported-point-nonfinite", "invariant:reported-point-nonfinite:" + O, O + ": reported " + vname(R.coords[k]) + " is not finite");
     double fr = evalObj(oc, x), fs = evalObj(oc, oc.x0);
+    if (c.kind == O_GOLDEN) {
+      // golden section search documents that the value given to init() is not used: its starting information is the initial
+      // interval, and the starting value is the better of the interval's two ends (clipped as the parameter clips them)
+      double xa[MAXN], xb[MAXN]; for (int i = 0; i < oc.n; ++i) xa[i] = xb[i] = oc.x0[i];
+      double a = c.iv0, b = c.iv1; int j = c.coord;
+      if (c.policy == P_AUTO && oc.has[j]) { a = std::min(std::max(a, oc.lo[j]), oc.hi[j]); b = std::min(std::max(b, oc.lo[j]), oc.hi[j]); }
+      xa[j] = a; xb[j] = b; fs = std::min(evalObj(oc, xa), evalObj(oc, xb));
+    }
     std::string bc = cut ? ":budget-cut" : (c.kind == O_NBT && c.stopType != 0 ? ":custom-stop" : "");
     std::string ct = consistencyTrigger();
     if (!(R.ret == R.fval)) vfail("invariant:return-vs-function-value", "invariant:return-vs-function-value:" + O + ct + bc, O + ": optimize() returned " + fmtd(R.ret) + " but getFunctionValue() is " + fmtd(R.fval));
@@ -555,7 +611,10 @@ public:
   void convergence(const Result& R, const double* x) {
     if (oc.type != 0 || c.budget > 0 || c.stopType != 0 || c.kind == O_NBT) return;
     if (!R.tol) { ctx.probe("stopped-by-default-budget"); return; }          // stopped by the optimiser's default budget, not by its stopping tolerance
-    if (R.onBound > 0 || R.outside > 0) return;                               // some evaluation sat on / beyond a bound: a constraint was active during the run
+    // some evaluation sat on / beyond a bound: a constraint was active during the run (under the automatic policy the optimiser
+    // then sees a clipped, plateau-shaped objective: Brent drifts along the plateau, the simplex collapses onto the face)
+    bool touched = R.onBound > 0;
+    if (R.outside > 0 || touched) return;
     if (c.kind == O_META) {
       // a meta-optimiser whose parameters all go to ONE inner optimiser stops after a single outer step by design: that is a
       // full optimisation only if the inner optimiser is run in "full" mode
@@ -580,6 +639,7 @@ public:
       if (oc.has[j]) { double w = oc.hi[j] - oc.lo[j]; if (!(xm[j] - oc.lo[j] >= 0.1 * w && oc.hi[j] - xm[j] >= 0.1 * w)) return; }
     }
     fmin = evalObj(oc, xm);
+    if ((c.kind == O_POWELL || c.kind == O_DSM) && fmin == 0) return;     // their stop test is relative to |f|: undefined at a minimum value of exactly 0
     double dist = 0, xs = 0, d0 = 0;
     for (int i : R.coords) { dist = std::max(dist, std::abs(x[i] - xm[i])); xs = std::max(xs, std::abs(xm[i])); d0 = std::max(d0, std::abs(oc.x0[i] - xm[i])); }
     double D;
@@ -591,7 +651,8 @@ public:
     double flo = std::sqrt(2 * 64 * EPS * std::max(std::abs(fmin), 1e-300) / lmin) + 64 * EPS * xs;
     double ratio = dist / (D + flo);
     ctx.probe("convergence-checked");
-    std::string key = on() + (c.kind == O_META && c.metaA == 2 ? ":simplex-inner" : "") + (boxed ? ":boxed" : "");
+    std::string key = on() + (c.kind == O_META && c.metaA == 2 ? (c.metaTypeA ? ":simplex-inner" : ":simplex-stepwise") : "") + (boxed ? ":boxed" : "");
+    if (touched) key += ":touched";
     // BFGS gives up ("function increase") when its last step ended above the previous value: its own diagnosis of a failed line search
     if (c.kind == O_BFGS && !R.steps.empty()) {
       double prev = R.steps.size() >= 2 ? R.steps[R.steps.size() - 2].f : evalObj(oc, oc.x0);
@@ -600,11 +661,12 @@ public:
     if (g_cal.on) {
       std::string w = "plan=" + std::to_string(p.index) + " dist=" + fmtd(dist) + " d0=" + fmtd(d0) + " tol=" + fmtd(c.tol) + " cond=" + fmtd(lmax / lmin) + " n=" + std::to_string(oc.n) + " pol=" + PNAME[c.policy] + " steps=" + std::to_string(R.steps.size());
       g_cal.see(key, ratio, w);
+      if (c.kind == O_DSM) g_cal.see(on() + ":n" + std::to_string(oc.n), ratio, w);
       g_cal.see(key + ":bad1e3", ratio > 1e3 ? 1 : 0, w);
       g_cal.see(key + ":bad30", ratio > 30 ? 1 : 0, w);
       g_cal.see(key + ":progress", d0 > 0 ? dist / d0 : 0, w);
     }
-    double K = convK(c.kind, c.kind == O_META && c.metaA == 2);
+    double K = convK(c.kind, oc.n);
     if (!(ratio <= K))
       vfail("invariant:convergence", "invariant:convergence:" + key, on() + ": distance to the minimiser " + fmtd(dist) + " (start was at " + fmtd(d0) + "), bound " + fmtd(K * (D + flo)) + " for tolerance " + fmtd(c.tol) + ", smallest curvature " + fmtd(lmin));
   }
@@ -613,7 +675,7 @@ public:
   void opEnv() {
     if (!inDomain()) { ctx.outcome("skip"); return; }
     Env a = envOf(p, "A"), b = envOf(p, "B");
-    Result RA = runOpt(oc, c, a);
+    const Result& RA = runA();
     if (RA.outcome == 3) { ctx.outcome("inconclusive"); return; }      // judged by the opt op
     Result RB = runOpt(oc, c, b);
     logResult(RB);
@@ -632,17 +694,6 @@ public:
     ctx.outcome("read");
   }
 
-  // minimiser of the objective along coordinate j, the other coordinates at the start (bisection on the analytic derivative)
-  double condMin(int j) const {
-    double x[MAXN]; for (int i = 0; i < oc.n; ++i) x[i] = oc.x0[i];
-    if (oc.type == 0) { double g = 0; for (int k = 0; k < oc.n; ++k) if (k != j) g += oc.A[j][k] * (oc.x0[k] - oc.m[k]); return oc.m[j] - g / oc.A[j][j]; }
-    double lo = oc.m[j] - 1, hi = oc.m[j] + 1;
-    for (int it = 0; it < 60; ++it) { x[j] = lo; if (gradObj(oc, x, j) < 0) break; lo = oc.m[j] - (oc.m[j] - lo) * 4; }
-    for (int it = 0; it < 60; ++it) { x[j] = hi; if (gradObj(oc, x, j) > 0) break; hi = oc.m[j] + (hi - oc.m[j]) * 4; }
-    for (int it = 0; it < 200 && lo < hi; ++it) { double mid = 0.5 * (lo + hi); if (!(lo < mid && mid < hi)) break; x[j] = mid; if (gradObj(oc, x, j) < 0) lo = mid; else hi = mid; }
-    return 0.5 * (lo + hi);
-  }
-
   // (6) bracketing: the middle point (by abscissa) of the returned triple has the lowest value
   void opBracket(const Op& o, bool inward) {
     if (!inDomain()) { ctx.outcome("skip"); return; }
@@ -658,7 +709,7 @@ public:
     else pl.addParameter(bpp::Parameter(vname(j), oc.x0[j], ic));
     double a = oc.x0[j] + o.x, b = a + o.y;
     if (!inward && p.geti("farbr") == 0) {     // near family: the coordinate's minimiser lies strictly between the two initial abscissae
-      double xm = condMin(j), u = 0.05 + 0.9 * std::abs(o.x - std::floor(o.x));
+      double xm = condMinOf(oc, j), u = 0.05 + 0.9 * std::abs(o.x - std::floor(o.x));
       a = xm - u * o.y; b = a + o.y;
       if (!((a < xm && xm < b) || (b < xm && xm < a))) { ctx.outcome("skip"); return; }
     }
@@ -676,6 +727,7 @@ public:
     catch (bpp::Exception&) { outcome = 2; }
     const std::string B = inward ? "inwardBracketMinimum" : "bracketMinimum";
     ctx.evi("outcome", outcome); ctx.evi("evals", f.nEval);
+    ctx.outcome((std::string("cfg:") + (inward ? "ibracket" : "bracket") + ":mode" + std::to_string(mode) + (oc.type ? ":logcosh" : ":quadratic") + ":n" + std::to_string(oc.n) + (oc.has[j] ? ":box" : ":nobox") + (p.geti("farbr") ? ":far" : ":near") + ":o" + std::to_string(outcome)).c_str());
     if (outcome == 3) vfail("hang:eval-cap", "hang:eval-cap:" + B, B + " used more than " + std::to_string(EVAL_CAP) + " evaluations");
     if (outcome == 1) {
       if (mode == 0 && !(oc.ownBox && oc.anyBox())) vfail("foreign-exception:constraint-without-constraints", "foreign-exception:constraint-without-constraints:" + B, B + ": ConstraintException without any constraint");
@@ -738,7 +790,7 @@ public:
               "SimListener (records getNumberOfEvaluations()/getFunctionValue() at every step event; does not modify parameters)",
               "SimOutBuf behind message handler, profiler, ApplicationTools::message and std::cout (null / recording / refuses bytes after offset k)",
               "simulated clock behind time() (tick / frozen / jumping hours / stepping backwards)"};
-    i.rule = "one run = one objective + one optimiser configuration drawn from the seed (optimiser, dimension 1..6, spectrum, rotations, minimiser, start, box, constraint policy, tolerance, stop condition, budget, verbosity, clock and stream modes), executed as 1-4 ops: opt (full oracle), env (same optimisation re-run under a second clock/stream environment, results compared bit for bit), bracket / ibracket (direct bracketing calls); non-trivial = >=1 op completed with the oracle applied and >= 3 objective evaluations; distinct = distinct fingerprint of op-kind/outcome sequence";
+    i.rule = "one run = one objective + one optimiser configuration drawn from the seed (optimiser, dimension 1..6, spectrum, rotations, minimiser, start, box, constraint policy, tolerance, stop condition, budget, verbosity, clock and stream modes), executed as 1-4 ops: opt (full oracle), env (same optimisation re-run under a second clock/stream environment, results compared bit for bit), bracket / ibracket (direct bracketing calls); non-trivial = >=1 op completed with the oracle applied and >= 3 objective evaluations; distinct = distinct fingerprint of the sequence of (op kind, configuration class, outcome class), where the configuration class is optimiser x constraint policy x objective kind x dimension x box placement x budget (none / not reached / cut) x stop-condition kind x verbosity x tolerance reached (plus the inner optimisers and modes of a meta-optimiser), without any values";
     i.simTime = "objective evaluations (global sequence number per optimisation); wall clock simulated through time()";
     i.faultKinds = {"budget-cut", "clock-freeze", "clock-jump", "clock-back", "stream-fail", "stream-null"};
     i.probeNames = {"convergence-checked", "environment-rerun-identical", "bracket-checked", "inward-bracket-checked", "auto-policy-with-box", "constraint-exception-under-keep-or-ignore",
@@ -746,29 +798,31 @@ public:
     for (int k = 0; k < NOPT; ++k) i.probeNames.push_back(std::string("ran:") + ONAME[k]);
     i.tolerances["descent"] = "f(reported) <= f(start) + 8 ulp * max(|f(start)|, |c|); both evaluated by the harness with the objective's own formula";
     i.tolerances["consistency"] = "optimize() == getFunctionValue() == objective at getParameters(): exact (same deterministic evaluator); objective's own parameters == getParameters(): exact";
-    i.tolerances["convergence"] = "max-norm distance to the minimiser <= K * (D + floor); D = sqrt(2 tol / lmin) for absolute function-change stop conditions (Bfgs, ConjugateGradient, Simple*, Newton1D, Meta), sqrt(2 tol |fmin| / lmin) for the relative ones (Powell, DownhillSimplex), tol * |xmin| + 1e-10 for Brent / golden section; floor = sqrt(128 eps max(|fmin|, 1e-300) / lmin) + 64 eps |xmin|; lmin = smallest eigenvalue (curvature along the coordinate for 1-D optimisers); K = Bfgs 1e5, ConjugateGradient 500, Powell 2000, DownhillSimplex 5e5, SimpleMulti/SimpleNewtonMulti 1000, Brent/BrentInward/GoldenSection 50, Newton1D 1e-6, Meta 1000 (5e4 when it drives the downhill simplex): each >= 100 x the worst ratio of 130 000 runs of the unchanged tree";
+    i.tolerances["convergence"] = "max-norm distance to the minimiser <= K * (D + floor); D = sqrt(2 tol / lmin) for absolute function-change stop conditions (Bfgs, ConjugateGradient, Simple*, Newton1D, Meta), sqrt(2 tol |fmin| / lmin) for the relative ones (Powell, DownhillSimplex), tol * |xmin| + 1e-10 for Brent / golden section; floor = sqrt(128 eps max(|fmin|, 1e-300) / lmin) + 64 eps |xmin|; lmin = smallest eigenvalue (curvature along the coordinate for 1-D optimisers); K = Bfgs 1e5, ConjugateGradient 500, Powell 3000, DownhillSimplex 5000 / 1e5 / 3e5 / 3e6 for dimensions 1 / 2-4 / 5 / 6, SimpleMulti/SimpleNewtonMulti 1000, Brent/BrentInward/GoldenSection 50, Newton1D 1e-6, Meta 1e5: each >= 100 x the worst ratio of 130 000 runs of the unchanged tree";
     i.tolerances["bracket-ties"] = "abscissae closer than 64 eps * max|x| count as equal when naming the middle point (rounding of the inward scan)";
     i.assumptions = {
       "monotone decrease step by step, iteration counts, behaviour with a listener that modifies parameters or an objective returning NaN / raising: not asserted",
       "an exception derived from bpp::Exception leaving init()/optimize() is an accepted outcome (the interface documents it); under CONSTRAINTS_KEEP / CONSTRAINTS_IGNORE this includes ConstraintException when a step leaves the box; under CONSTRAINTS_AUTO a ConstraintException is a violation of the feasibility clause",
       "budget clause, as observable: for optimisers driven by AbstractOptimizer::optimize (all of them) the listener sees getNumberOfEvaluations() after each step; step j+1 was started with that value + 1, which must be < nbEvalMax for every step that was started; optimize() may only return with tolerance not reached when the counter is >= nbEvalMax.  The counter is the optimiser's own (it adds the inner line searches' counters, not objective calls)",
-      "termination: a run is reported as hang only when ONE iteration (init or one step) consumed more than 500 000 objective evaluations; a run that reaches 1 000 000 evaluations with its own counter still below its budget is inconclusive and not reported",
+      "termination (second criterion): a run stopped by the cap is also reported when more than half of the cap went by without any improvement of the best objective value seen (an optimiser that neither progresses nor stops); a capped run that was still improving is inconclusive",
+      "termination: a run is reported as hang only when ONE iteration (init or one step) consumed more than 350 000 objective evaluations; a run that reaches 700 000 evaluations with its own counter still below its budget is inconclusive and not reported",
       "convergence clause only: strictly convex quadratic, no budget cut, the optimiser's own default stop condition with the plan's tolerance, tolerance reported as reached, start and minimiser at least 10% of the box width away from every bound, and no evaluation on or beyond a bound during the run (otherwise a constraint was active)",
       "convergence is not asserted for NewtonBacktrackOneDimension (documented as a sufficient-decrease search, not a minimiser) nor for a meta-optimiser that gives all parameters to one step-wise inner optimiser (stops after one outer step by design)",
       "NewtonBacktrackOneDimension is started at 0 with the exact slope of a descent direction (minimiser > 0), as its documentation requires",
-      "1-D interval optimisers get an initial interval that contains the start (golden section mostly between start and minimiser, see the rarity constants); inward bracketing gets an interval containing start and minimiser",
+      "1-D interval optimisers get an initial interval that contains the start; inward bracketing gets an interval containing start and minimiser; golden section search documents that it ignores the value given to init(), so its starting value in the descent clause is the better of the two ends of its initial interval",
       "bracketing: 'middle' is the point whose abscissa lies between the other two; for bracketMinimum this must be b; values stored in the triple must be the objective at the stored abscissae (clipped as an auto-correcting parameter clips them)",
       "environment independence compares outcome class, getNumberOfEvaluations(), number and sequence hash of objective evaluations, returned value, getFunctionValue() and reported point bit for bit between two clock/stream environments",
       "generator rarities (constants at the top of h_c10.cpp) keep the triggers of findings known on the unchanged tree to about 1 run in 50 (1 in 400 for those costing 1e6 evaluations)"};
     return i;
   }
-  long defaultRuns(Tier t) const override { return t == QUICK ? 20000 : 300000; }
+  long defaultRuns(Tier t) const override { return t == QUICK ? 40000 : 500000; }
 
   Plan generate(Rng& rng, Tier) const override {
     Plan p;
     std::vector<double> kw(NOPT, 1.0); kw[O_GOLDEN] = 0.35; kw[O_NBT] = 0.5; kw[O_NEWTON1] = 0.6;
     for (auto& w : kw) if (rng.chance(0.15)) w *= 3;           // swarm
     int kind = static_cast<int>(rng.weighted(kw));
+    if (g_onlyKind >= 0) kind = g_onlyKind;
     p.cfg["opt"] = kind;
     bool oneD = is1D(kind);
     int n = oneD ? (rng.chance(0.7) ? 1 : static_cast<int>(rng.range(2, 4))) : static_cast<int>(rng.range(1, 6));
@@ -794,7 +848,11 @@ public:
     p.cfgd["lq"] = rng.logUniform(1e-3, 1);
     p.cfgd["c"] = rng.chance(0.02) ? 0 : rng.logUniform(0.1, 100) * (rng.chance(0.5) ? 1 : -1);
     // box
-    long boxStyle = rng.below(10);      // 0-3 none, 4-5 wide, 6-7 tight, 8-9 mixed
+    // downhill-simplex arms: (a) interior optimum in a medium box under the automatic policy with a sharp tolerance and the
+    // optimiser's own stop condition (the configuration in which the simplex's centroid bookkeeping meets the constraints),
+    // (b) start exactly on an upper bound (degenerate initial simplex under the automatic policy)
+    bool dsmArmA = kind == O_DSM && rng.chance(0.3), dsmArmB = kind == O_DSM && !dsmArmA && rng.chance(0.15);
+    long boxStyle = rng.below(12);      // 0-3 none, 4-5 wide, 6-7 tight, 8-9 mixed, 10-11 medium (margins comparable to the start-minimiser distance)
     long mask = 0;
     for (int i = 0; i < n; ++i) {
       std::string k = std::to_string(i);
@@ -802,10 +860,14 @@ public:
       bool has = boxStyle >= 4 && (boxStyle < 8 || rng.chance(0.6));
       bool tight = boxStyle >= 6 && (boxStyle < 8 || rng.chance(0.5));
       double ml = tight ? (rng.chance(0.15) ? 0 : rng.logUniform(1e-4, 1)) : rng.logUniform(5, 1000), mh = tight ? (rng.chance(0.15) ? 0 : rng.logUniform(1e-4, 1)) : rng.logUniform(5, 1000);
+      if (dsmArmA) { boxStyle = 10; has = true; }
+      if (dsmArmB) { has = true; }
+      if (boxStyle >= 10) { ml = 0.3 + rng.real(0.15, 2) * (b - a); mh = 0.3 + rng.real(0.15, 2) * (b - a); }
       if (has) mask |= 1L << i;
       p.cfgd["lo" + k] = a - ml; p.cfgd["hi" + k] = b + mh;
       if (!(p.cfgd["lo" + k] < p.cfgd["hi" + k])) { p.cfgd["hi" + k] = p.cfgd["lo" + k] + 1; }
     }
+    if (dsmArmB) { std::string k = std::to_string(rng.below(n)); p.cfgd["x" + k] = p.cfgd["hi" + k]; }
     p.cfg["boxmask"] = mask;
     p.cfg["ownbox"] = rng.chance(0.6) ? 1 : 0;
     p.cfg["policy"] = static_cast<long>(rng.weighted({5, 3, 2}));
@@ -814,13 +876,15 @@ public:
     p.cfg["budget"] = rng.chance(0.3) ? rng.range(2, 50) : 0;
     p.cfg["verbose"] = static_cast<long>(rng.weighted({5, 4, 1}));
     p.cfg["upd"] = rng.chance(0.3) ? 1 : 0;
+    if (dsmArmA) { p.cfg["policy"] = P_AUTO; p.cfg["stop"] = 0; p.cfg["budget"] = 0; p.cfg["otype"] = 0; p.cfgd["tol"] = rng.logUniform(1e-10, 1e-8); }
+    if (dsmArmB) { p.cfg["policy"] = P_AUTO; }
     // 1-D specifics: the initial interval holds the start (outward bracketing may leave it; inward scanning needs the minimiser inside)
     {
       std::string k = std::to_string(p.cfg["coord"]);
       double x0 = p.cfgd["x" + k], m = p.cfgd["m" + k];
       double w = rng.logUniform(1e-3, 10), u = rng.chance(0.2) ? 0 : rng.unit();
       double iv0 = x0 - u * w, iv1 = iv0 + w;
-      if (kind == O_BRENTIN) { iv0 = std::min(x0, m) - rng.logUniform(1e-3, 5); iv1 = std::max(x0, m) + rng.logUniform(1e-3, 5); }
+      if (kind == O_BRENTIN) { ObjCfg tc = buildCfg(p); double xm = condMinOf(tc, static_cast<int>(p.cfg["coord"])); iv0 = std::min(x0, xm) - rng.logUniform(1e-3, 5); iv1 = std::max(x0, xm) + rng.logUniform(1e-3, 5); }
       if ((mask >> p.cfg["coord"]) & 1) { iv0 = std::max(iv0, p.cfgd["lo" + k]); iv1 = std::min(iv1, p.cfgd["hi" + k]); if (!(iv0 < iv1)) { iv0 = p.cfgd["lo" + k]; iv1 = p.cfgd["hi" + k]; } }
       p.cfgd["iv0"] = iv0; p.cfgd["iv1"] = iv1;
       p.cfgd["nbttest"] = rng.logUniform(0.01, 10);
@@ -837,10 +901,11 @@ public:
       if (p.cfg["metaA"] == 2 && p.cfg["metaTA"] == 0 && !rareDsmStep) p.cfg["metaTA"] = 1;
       if (p.cfg["metaB"] == 0 && !rareBfgs) p.cfg["metaB"] = 1 + rng.below(3);
       if (p.cfg["metaA"] == 1 && p.cfg["metaTA"] == 0 && rng.below(META_POWELL_STEP_ONE_IN) != 0) p.cfg["metaTA"] = 1;
+      if (p.cfg["metaA"] == 2 && p.cfg["metaTA"] == 0 && p.cfg["stop"] == 0 && p.cfg["budget"] == 0 && p.cfg["otype"] == 0 && rng.below(META_DSM_STEP_CONV_ONE_IN) != 0) p.cfg["stop"] = 1;
     }
     if ((kind == O_DSM || (kind == O_META && p.cfg["metaA"] == 2)) && p.cfg["policy"] == P_AUTO && rng.below(DSM_DEGENERATE_ONE_IN) != 0)
       for (int i = 0; i < n; ++i) { std::string k = std::to_string(i); if (p.cfgd["hi" + k] == p.cfgd["x" + k]) p.cfgd["hi" + k] += 0.3; }
-    if (p.cfg["stop"] == 2 && rng.chance(0.9)) p.cfgd["tol"] = std::max(p.cfgd["tol"], 1e-7);      // parameter-change tolerances below the line searches' own resolution rarely terminate before the budget
+    if (p.cfg["stop"] == 2) p.cfgd["tol"] = std::max(p.cfgd["tol"], 1e-5);      // parameter-change tolerances below the line searches' own resolution rarely terminate before the budget
     if (kind == O_NBT && !rareNbt) { p.cfg["budget"] = 0; p.cfg["stop"] = 0; }
     if (p.cfgd["c"] == 0 && (kind == O_POWELL || (kind == O_META && p.cfg["metaA"] == 1)) && rng.below(POWELL_ZERO_MIN_ONE_IN) != 0) p.cfgd["c"] = 1.5;
     if (kind == O_GOLDEN && !rareGolden) {
